@@ -94,6 +94,14 @@ fn probe_script<P: Pid>(c: &mut ConnBox<P>, ver: Ver, as_client: bool) -> Trace 
     t
 }
 
+fn sides_of(role: RoleK) -> Vec<bool> {
+    match role {
+        RoleK::Client => vec![true],
+        RoleK::Server => vec![false],
+        RoleK::Any => vec![true, false],
+    }
+}
+
 fn first_diff(a: &Trace, b: &Trace) -> Option<(String, Vec<String>, Vec<String>)> {
     for (x, y) in a.iter().zip(b.iter()) {
         if x != y {
@@ -185,12 +193,7 @@ pub fn c10(rep: &mut Report) {
                 Some(v) => v,
                 None => return (0, out),
             };
-            let sides: Vec<bool> = match w.cfg.role {
-                RoleK::Client => vec![true],
-                RoleK::Server => vec![false],
-                RoleK::Any => vec![true, false],
-            };
-            for as_client in sides {
+            for as_client in sides_of(w.cfg.role) {
                 for which in 0..if ver == Ver::V5 { 4 } else { 3 } {
                     n += 1;
                     let r = guarded(|| {
@@ -220,6 +223,54 @@ pub fn c10(rep: &mut Report) {
                                 out.push(Violation { rule: "c10.state".into(), sig: format!("c10.state|{}|{}", if as_client { "client" } else { "server" }, names.join("+")), detail: format!("[{name}] after the new-session {hs} the reused object differs from a fresh one in {names:?}: {text}"), config: name.clone(), history: hist.clone() });
                             } else if let Some((step, x, y)) = first_diff(&pa, &pb) {
                                 out.push(Violation { rule: "c10.probe-events".into(), sig: format!("c10.probe-events|{hs}|{}", step.split(' ').take(2).collect::<Vec<_>>().join(" ")), detail: format!("[{name}] probe script after {hs}: at '{step}' reused {x:?} vs fresh {y:?}"), config: name.clone(), history: hist.clone() });
+                            }
+                        }
+                    }
+                }
+            }
+            // resumed session: connection-scoped leftovers must not influence the next connection either.
+            // Partner: a fresh object that is given exactly the session state (export of store + handled
+            // set) - it has no connection-scoped history at all. Both resume with own Receive Maximum 1.
+            if w.m.persistent && w.m.ids.values().all(|o| matches!(o, Owner::Pub1 | Owner::Pub2 | Owner::Rel)) {
+                for as_client in sides_of(w.cfg.role) {
+                    n += 1;
+                    let x_store = w.conn.stored();
+                    let x_handled = w.conn.handled();
+                    let r = guarded(|| {
+                        let mut a = w.conn.clone();
+                        let mut b = fresh_conn::<u16>(&w.cfg, Some(ver));
+                        if let Some(d) = w.m.user_interval {
+                            let _ = b.set_pingreq_send_interval(Some(d));
+                        }
+                        b.restore_packets(x_store.clone());
+                        b.restore_handled(&x_handled);
+                        let ta = resume2(&mut a, ver, as_client, None, if ver == Ver::V5 { Some(1) } else { None });
+                        let tb = resume2(&mut b, ver, as_client, None, if ver == Ver::V5 { Some(1) } else { None });
+                        let (sa, sb) = (a.snap(), b.snap());
+                        // the peer retransmits what it may have in flight: QoS 1 / 2 PUBLISH id 1 with DUP
+                        let mut pa: Trace = vec![];
+                        let mut pb: Trace = vec![];
+                        for q in [2u8, 1] {
+                            let ap = AP::Publish { ver, dup: true, qos: q, retain: false, topic: b"a".to_vec(), pid: Some(1), props: vec![], payload: b"p".to_vec() };
+                            let mut a2 = a.clone();
+                            let mut b2 = b.clone();
+                            recv(&mut a2, &mut pa, ap.clone());
+                            recv(&mut b2, &mut pb, ap);
+                        }
+                        (ta, tb, sa, sb, pa, pb)
+                    });
+                    let hs = format!("{} resume (own Receive Maximum 1)", if as_client { "client" } else { "server" });
+                    let hist: Vec<serde_json::Value> = hists[i].iter().map(|a| json!(format!("{a:?}"))).chain(std::iter::once(json!(format!("then: {hs} on the reused object vs a fresh object restored from its export")))).collect();
+                    match r {
+                        Err(m) => out.push(Violation { rule: "c10.panic".into(), sig: format!("c10.panic|{}", crate::util::panic_sig(&m)), detail: format!("[{name}] panic during the resumed connection: {m}"), config: name.clone(), history: hist }),
+                        Ok((ta, tb, sa, sb, pa, pb)) => {
+                            if let Some((step, x, y)) = first_diff(&ta, &tb) {
+                                out.push(Violation { rule: "c10.resume-events".into(), sig: format!("c10.resume-events|{hs}|{}", step.split(' ').take(2).collect::<Vec<_>>().join(" ")), detail: format!("[{name}] {hs}: at '{step}' the reused object returns {x:?}, a fresh object holding the same session {y:?}"), config: name.clone(), history: hist.clone() });
+                            } else if sa != sb {
+                                let (names, text) = debug_diff(&sa, &sb);
+                                out.push(Violation { rule: "c10.resume-state".into(), sig: format!("c10.resume-state|{}|{}", if as_client { "client" } else { "server" }, names.join("+")), detail: format!("[{name}] after the {hs} the reused object differs from a fresh object holding the same session in {names:?}: {text}"), config: name.clone(), history: hist.clone() });
+                            } else if let Some((step, x, y)) = first_diff(&pa, &pb) {
+                                out.push(Violation { rule: "c10.resume-probe".into(), sig: format!("c10.resume-probe|{hs}|{}", step.split(' ').take(3).collect::<Vec<_>>().join(" ")), detail: format!("[{name}] after the {hs}: at '{step}' reused {x:?} vs fresh-with-session {y:?}"), config: name.clone(), history: hist.clone() });
                             }
                         }
                     }
@@ -279,9 +330,14 @@ pub fn c16_configs(thorough: bool) -> Vec<EpCfg> {
 }
 
 fn resume<P: Pid>(c: &mut ConnBox<P>, ver: Ver, as_client: bool, rm: Option<u16>) -> Trace {
+    resume2(c, ver, as_client, rm, None)
+}
+
+/// resume handshake with the peer's Receive Maximum `rm` and the own one `own`
+fn resume2<P: Pid>(c: &mut ConnBox<P>, ver: Ver, as_client: bool, rm: Option<u16>, own: Option<u16>) -> Trace {
     let mut t = vec![];
-    let cp = ConnProf { rm: if as_client { None } else { rm }, ..ConnProf::basic(false) };
-    let ap = AckProf { rm: if as_client { rm } else { None }, ..AckProf::basic(true) };
+    let cp = ConnProf { rm: if as_client { own } else { rm }, ..ConnProf::basic(false) };
+    let ap = AckProf { rm: if as_client { rm } else { own }, ..AckProf::basic(true) };
     if as_client {
         send(c, &mut t, cp.ap(ver));
         recv(c, &mut t, ap.ap(ver));
@@ -389,6 +445,16 @@ pub fn c16(rep: &mut Report) {
                     b.restore_handled(&x_handled);
                     // restored identifiers are in use
                     let mut direct: Vec<String> = vec![];
+                    // the two restore calls are independent: the other order gives the same object
+                    {
+                        let mut b2 = fresh_conn::<u16>(&w.cfg, Some(ver));
+                        b2.restore_handled(&x_handled);
+                        b2.restore_packets(x_store.clone());
+                        if b2.snap() != b.snap() {
+                            let (names, _) = debug_diff(&b.snap(), &b2.snap());
+                            direct.push(format!("restore order matters: restore_qos2_publish_handled() before restore_packets() differs from the reverse order in {names:?}"));
+                        }
+                    }
                     for p in &x_store {
                         let id = p.packet_id() as u32;
                         let mut bb = b.clone();
